@@ -15,7 +15,7 @@ package play
 //@ define rootOf(k, c) 60 + spec.keySemi(note.letter(k.key.Name), op.kacc(k.key.Accidental)) + spec.intervalSize(c.Degree.Value, note.qual(c.Degree.Name))
 
 //@ func Key.Apply returns (r, err)
-//@   allocs []MIDINoteNumber, []Attribute
+//@   allocs []MIDINoteNumber, []chord.Attribute
 //@   requires note.validName(k.key.Name) && k.cmap != nil
 //@   ensures err == nil ==> spec.dictHas(k.cmap, c.Chord.Name) && spec.validInterval(c.Degree.Value, note.qual(c.Degree.Name)) && spec.validInterval(c.Base.Value, note.qual(c.Base.Name))
 //@   ensures err == nil ==> forall(j, 0, spec.dictLen(k.cmap, c.Chord.Name), spec.validInterval(spec.dictNum(k.cmap, c.Chord.Name, j), spec.dictQual(k.cmap, c.Chord.Name, j)))
@@ -32,3 +32,123 @@ package play
 //@   loop 0 invariant forall(j, 0, rangeindex + 1, result[1+j] == spec.u8(rootOf(k, c) + spec.intervalSize(spec.dictNum(k.cmap, c.Chord.Name, j), spec.dictQual(k.cmap, c.Chord.Name, j))))
 //@   loop 0 invariant forall(j, 0, rangeindex + 1, spec.validInterval(spec.dictNum(k.cmap, c.Chord.Name, j), spec.dictQual(k.cmap, c.Chord.Name, j)))
 //@   loop 0 decreases len(attrs) - rangeindex
+
+// ---- settings carried across instances (C01 key in force, C07 events at the right time) ----
+
+//@ define wfArgs(m) m != nil && m.bpm != nil && m.meter != nil && m.velocity != nil && m.key != nil && m.meta != nil
+
+//@ func newMidiArgs returns (r)
+//@   allocs midiArgs, Slice
+//@   ensures r != nil && fresh(r) && wfArgs(r) && fresh(r.bpm) && fresh(r.meter) && fresh(r.velocity) && fresh(r.key) && fresh(r.meta)
+//@   ensures r.bpm.value == defaultBPM && r.bpm.updated && r.meter.value == defaultMeter && r.meter.updated && r.velocity.value == defaultVelocity && r.velocity.updated && r.key.value == defaultKey && r.key.updated && r.meta.value == defaultMeta && r.meta.updated
+
+// update: every setting present on the instance replaces the carried one and marks it for emission
+//@ func midiArgs.update
+//@   modifies m.bpm, m.meter, m.velocity, m.key, m.meta
+//@   requires wfArgs(m)
+//@   ensures m.bpm.value == ite(instance.BPM != nil, old(*instance.BPM), old(m.bpm.value)) && m.bpm.updated == (instance.BPM != nil || old(m.bpm.updated))
+//@   ensures m.meter.value == ite(instance.Meter != nil, old(*instance.Meter), old(m.meter.value)) && m.meter.updated == (instance.Meter != nil || old(m.meter.updated))
+//@   ensures m.velocity.value == ite(instance.Velocity != nil, old(*instance.Velocity), old(m.velocity.value)) && m.velocity.updated == (instance.Velocity != nil || old(m.velocity.updated))
+//@   ensures m.key.value == ite(instance.Key != nil, old(*instance.Key), old(m.key.value)) && m.key.updated == (instance.Key != nil || old(m.key.updated))
+//@   ensures m.meta.value == ite(instance.Meta != nil, old(*instance.Meta), old(m.meta.value)) && m.meta.updated == (instance.Meta != nil || old(m.meta.updated))
+
+//@ func midiArgs.getKey returns (k)
+//@   pure
+//@   requires m.key != nil
+//@   ensures k == m.key.value
+
+//@ func midiArgs.getVelocity returns (v)
+//@   pure
+//@   requires m.velocity != nil
+//@   ensures v == spec.u8(op.dynamicSignVelocityMap[m.velocity.value])
+
+//@ define gw(w) ghost(midix.ghostWriter, w)
+//@ define bump(cnt, cond) ite(cond, store(old(cnt), old(gw(w).NN), old(cnt)[old(gw(w).NN)] + 1), old(cnt))
+//@ define setAt(arr, cond, val) ite(cond, store(old(arr), old(gw(w).NN), val), old(arr))
+//@ define kl(k) note.letter(k.Name)
+//@ define ka(k) op.kacc(k.Accidental)
+
+// writeWhenUpdated: every setting marked for emission produces its event now (before the
+// next note or rest), exactly once; the key signature is the conventional one of the key.
+//@ func midiArgs.writeWhenUpdated
+//@   modifies m.bpm, m.meter, m.key, m.meta, midix.ghostWriter
+//@   allocs op.Scale, op.ScaleNote
+//@   requires wfArgs(m) && w != nil && (m.key.updated ==> op.supported(m.key.value))
+//@   ensures !m.bpm.updated && !m.meter.updated && !m.key.updated && !m.meta.updated
+//@   ensures m.bpm.value == old(m.bpm.value) && m.meter.value == old(m.meter.value) && m.key.value == old(m.key.value) && m.meta.value == old(m.meta.value)
+//@   ensures gw(w).NN == old(gw(w).NN) && gw(w).IsRest == old(gw(w).IsRest) && gw(w).Value == old(gw(w).Value) && gw(w).Vel == old(gw(w).Vel) && gw(w).KeysLen == old(gw(w).KeysLen) && gw(w).Keys == old(gw(w).Keys) && gw(w).CloseCnt == old(gw(w).CloseCnt) && gw(w).CloseAt == old(gw(w).CloseAt)
+//@   ensures gw(w).TempoCnt == bump(gw(w).TempoCnt, old(m.bpm.updated)) && gw(w).TempoVal == setAt(gw(w).TempoVal, old(m.bpm.updated), old(m.bpm.value))
+//@   ensures gw(w).MeterCnt == bump(gw(w).MeterCnt, old(m.meter.updated)) && gw(w).MeterNum == setAt(gw(w).MeterNum, old(m.meter.updated), spec.u8(old(m.meter.value.Num))) && gw(w).MeterDen == setAt(gw(w).MeterDen, old(m.meter.updated), spec.u8(old(m.meter.value.Denom)))
+//@   ensures gw(w).KeyCnt == bump(gw(w).KeyCnt, old(m.key.updated))
+//@   ensures gw(w).KeyKey == setAt(gw(w).KeyKey, old(m.key.updated), spec.u8(spec.keySemi(kl(old(m.key.value)), ka(old(m.key.value)))))
+//@   ensures gw(w).KeyMajor == setAt(gw(w).KeyMajor, old(m.key.updated), !old(m.key.value.Minor))
+//@   ensures gw(w).KeyNum == setAt(gw(w).KeyNum, old(m.key.updated), spec.u8(spec.countAcc(kl(old(m.key.value)), ka(old(m.key.value)), old(m.key.value.Minor), 1) + spec.countAcc(kl(old(m.key.value)), ka(old(m.key.value)), old(m.key.value.Minor), 0 - 1)))
+//@   ensures gw(w).KeyFlat == setAt(gw(w).KeyFlat, old(m.key.updated), spec.countAcc(kl(old(m.key.value)), ka(old(m.key.value)), old(m.key.value.Minor), 0 - 1) > 0)
+//@   ensures gw(w).TextCnt == bump(gw(w).TextCnt, old(m.meta.updated && m.meta.value[input.MetaTextKey] != "")) && gw(w).TextVal == setAt(gw(w).TextVal, old(m.meta.updated && m.meta.value[input.MetaTextKey] != ""), old(m.meta.value[input.MetaTextKey]))
+//@   ensures gw(w).LyricCnt == bump(gw(w).LyricCnt, old(m.meta.updated && m.meta.value[input.MetaLyricKey] != "")) && gw(w).LyricVal == setAt(gw(w).LyricVal, old(m.meta.updated && m.meta.value[input.MetaLyricKey] != ""), old(m.meta.value[input.MetaLyricKey]))
+//@   ensures gw(w).MarkerCnt == bump(gw(w).MarkerCnt, old(m.meta.updated && m.meta.value[input.MetaMarkerKey] != "")) && gw(w).MarkerVal == setAt(gw(w).MarkerVal, old(m.meta.updated && m.meta.value[input.MetaMarkerKey] != ""), old(m.meta.value[input.MetaMarkerKey]))
+
+// newKey (a function-valued field) pairs the key in force with the writer's dictionary
+//@ funcval MIDIWriter.newKey (self, k) returns (r)
+//@   pure
+//@   ensures r.key == k && r.cmap == self.cmap
+
+// ---- Write: the whole instance list (C01, C02, C07) ----
+
+//@ define kAt(i) spec.keyAt(backing(instances), offset(instances), heap(op.Key), defaultKey, i)
+//@ define bAt(i) spec.bpmAt(backing(instances), offset(instances), heap(op.BPM), defaultBPM, i)
+//@ define vAt(i) spec.velAt(backing(instances), offset(instances), heap(op.DynamicSign), defaultVelocity, i)
+//@ define mAt(i) spec.meterAt(backing(instances), offset(instances), heap(op.Meter), defaultMeter, i)
+//@ define pos(i) old(gw(w).NN) + i
+//@ define sumOf(i) spec.sumValues(backing(instances[i].Values), offset(instances[i].Values), len(instances[i].Values))
+//@ define rootK(k, c) 60 + spec.keySemi(kl(k), ka(k)) + spec.intervalSize(c.Degree.Value, note.qual(c.Degree.Name))
+//@ define dlen(c) spec.dictLen(m.cmap, c.Chord.Name)
+//@ define dsize(c, j) spec.intervalSize(spec.dictNum(m.cmap, c.Chord.Name, j), spec.dictQual(m.cmap, c.Chord.Name, j))
+
+// what instance i contributes to the call history
+//@ define noteOK(i) gw(w).IsRest[pos(i)] == old(instances[i].Chord == nil) && gw(w).Value[pos(i)] == old(sumOf(i))
+//@ define pitchOK(i) old(instances[i].Chord != nil) ==> (gw(w).Vel[pos(i)] == spec.u8(op.dynamicSignVelocityMap[old(vAt(i))]) && gw(w).KeysLen[pos(i)] == 1 + old(dlen(instances[i].Chord)) && gw(w).Keys[pos(i)][0] == spec.u8(old(rootK(kAt(i), instances[i].Chord)) + old(spec.intervalSize(instances[i].Chord.Base.Value, note.qual(instances[i].Chord.Base.Name))) - 12) && forall(j, 0, old(dlen(instances[i].Chord)), gw(w).Keys[pos(i)][1 + j] == spec.u8(old(rootK(kAt(i), instances[i].Chord)) + old(dsize(instances[i].Chord, j)))))
+//@ define tempoOK(i) gw(w).TempoCnt[pos(i)] == old(gw(w).TempoCnt[pos(i)]) + ite(i == 0 || old(instances[i].BPM != nil), 1, 0) && ((i == 0 || old(instances[i].BPM != nil)) ==> gw(w).TempoVal[pos(i)] == old(bAt(i)))
+//@ define meterOK(i) gw(w).MeterCnt[pos(i)] == old(gw(w).MeterCnt[pos(i)]) + ite(i == 0 || old(instances[i].Meter != nil), 1, 0) && ((i == 0 || old(instances[i].Meter != nil)) ==> gw(w).MeterNum[pos(i)] == spec.u8(old(mAt(i).Rat.Num)) && gw(w).MeterDen[pos(i)] == spec.u8(old(mAt(i).Rat.Denom)))
+//@ define keyOK(i) gw(w).KeyCnt[pos(i)] == old(gw(w).KeyCnt[pos(i)]) + ite(i == 0 || old(instances[i].Key != nil), 1, 0) && ((i == 0 || old(instances[i].Key != nil)) ==> gw(w).KeyKey[pos(i)] == spec.u8(spec.keySemi(kl(old(kAt(i))), ka(old(kAt(i))))) && gw(w).KeyMajor[pos(i)] == !old(kAt(i)).Minor && gw(w).KeyNum[pos(i)] == spec.u8(spec.countAcc(kl(old(kAt(i))), ka(old(kAt(i))), old(kAt(i)).Minor, 1) + spec.countAcc(kl(old(kAt(i))), ka(old(kAt(i))), old(kAt(i)).Minor, 0 - 1)) && gw(w).KeyFlat[pos(i)] == (spec.countAcc(kl(old(kAt(i))), ka(old(kAt(i))), old(kAt(i)).Minor, 0 - 1) > 0))
+//@ define hasText(i, key) old(instances[i].Meta != nil && (*instances[i].Meta)[key] != "")
+//@ define textOK(i) gw(w).TextCnt[pos(i)] == old(gw(w).TextCnt[pos(i)]) + ite(hasText(i, input.MetaTextKey), 1, 0) && (hasText(i, input.MetaTextKey) ==> gw(w).TextVal[pos(i)] == old((*instances[i].Meta)[input.MetaTextKey])) && gw(w).LyricCnt[pos(i)] == old(gw(w).LyricCnt[pos(i)]) + ite(hasText(i, input.MetaLyricKey), 1, 0) && (hasText(i, input.MetaLyricKey) ==> gw(w).LyricVal[pos(i)] == old((*instances[i].Meta)[input.MetaLyricKey])) && gw(w).MarkerCnt[pos(i)] == old(gw(w).MarkerCnt[pos(i)]) + ite(hasText(i, input.MetaMarkerKey), 1, 0) && (hasText(i, input.MetaMarkerKey) ==> gw(w).MarkerVal[pos(i)] == old((*instances[i].Meta)[input.MetaMarkerKey]))
+//@ define untouched(k) gw(w).TempoCnt[k] == old(gw(w).TempoCnt[k]) && gw(w).MeterCnt[k] == old(gw(w).MeterCnt[k]) && gw(w).KeyCnt[k] == old(gw(w).KeyCnt[k]) && gw(w).TextCnt[k] == old(gw(w).TextCnt[k]) && gw(w).LyricCnt[k] == old(gw(w).LyricCnt[k]) && gw(w).MarkerCnt[k] == old(gw(w).MarkerCnt[k])
+
+//@ func MIDIWriter.Write returns (err)
+//@   modifies midix.ghostWriter
+//@   requires w != nil && m.cmap != nil && m.newKey != nil
+//@   requires forall(i, 0, len(instances), forall(q, 0, len(instances[i].Values), instances[i].Values[q].Rat.Denom >= 1))
+//@   ensures defaultKey.Name == note.C && !defaultKey.Minor && defaultKey.Accidental == op.Natural && defaultBPM == 100 && defaultMeter.Rat.Num == 4 && defaultMeter.Rat.Denom == 4 && defaultVelocity == op.MezzoPiano
+//@   ensures len(instances) == 0 ==> err != nil
+//@   ensures exists(i, 0, len(instances), instances[i].Key != nil && !op.supported(*instances[i].Key)) ==> err != nil
+//@   ensures err == nil ==> gw(w).NN == old(gw(w).NN) + len(instances) && gw(w).CloseCnt == old(gw(w).CloseCnt) + 1 && gw(w).CloseAt == gw(w).NN
+//@   ensures err == nil ==> forall(i, 0, len(instances), noteOK(i))
+//@   ensures err == nil ==> forall(i, 0, len(instances), pitchOK(i))
+//@   ensures err == nil ==> forall(i, 0, len(instances), tempoOK(i))
+//@   ensures err == nil ==> forall(i, 0, len(instances), meterOK(i))
+//@   ensures err == nil ==> forall(i, 0, len(instances), keyOK(i))
+//@   ensures err == nil ==> forall(i, 0, len(instances), textOK(i))
+//@   loop 0 modifies args.bpm, args.meter, args.velocity, args.key, args.meta, midix.ghostWriter
+//@   loop 0 invariant 0 - 1 <= rangeindex && rangeindex < len(instances)
+//@   loop 0 invariant wfArgs(args) && fresh(args) && fresh(args.bpm) && fresh(args.meter) && fresh(args.velocity) && fresh(args.key) && fresh(args.meta)
+//@   loop 0 invariant args.bpm.updated == (rangeindex < 0) && args.meter.updated == (rangeindex < 0) && args.key.updated == (rangeindex < 0) && args.meta.updated == (rangeindex < 0)
+//@   loop 0 invariant args.bpm.value == old(bAt(rangeindex)) && args.meter.value == old(mAt(rangeindex)) && args.velocity.value == old(vAt(rangeindex)) && args.key.value == old(kAt(rangeindex))
+//@   loop 0 invariant rangeindex < 0 ==> args.meta.value == defaultMeta
+//@   loop 0 invariant gw(w).NN == old(gw(w).NN) + rangeindex + 1 && gw(w).CloseCnt == old(gw(w).CloseCnt)
+//@   loop 0 invariant forall(i, 0, rangeindex + 1, noteOK(i))
+//@   loop 0 invariant forall(i, 0, rangeindex + 1, pitchOK(i))
+//@   loop 0 invariant forall(i, 0, rangeindex + 1, tempoOK(i))
+//@   loop 0 invariant forall(i, 0, rangeindex + 1, meterOK(i))
+//@   loop 0 invariant forall(i, 0, rangeindex + 1, keyOK(i))
+//@   loop 0 invariant forall(i, 0, rangeindex + 1, textOK(i))
+//@   loop 0 invariant op.supported(args.key.value)
+//@   loop 0 invariant forall(k, old(gw(w).NN) + rangeindex + 1, old(gw(w).NN) + len(instances) + 1, untouched(k))
+//@   loop 0 decreases len(instances) - rangeindex
+//@   loop 1 invariant 0 - 1 <= rangeindex && rangeindex < len(instance.Values)
+//@   loop 1 invariant value == spec.sumValues(backing(instance.Values), offset(instance.Values), rangeindex + 1)
+//@   loop 1 decreases len(instance.Values) - rangeindex
+//@   loop 2 modifies midiKeys
+//@   loop 2 invariant 0 - 1 <= rangeindex && rangeindex < len(numbers)
+//@   loop 2 invariant forall(j, 0, rangeindex + 1, midiKeys[j] == numbers[j])
+//@   loop 2 decreases len(numbers) - rangeindex
